@@ -190,3 +190,17 @@ package proxy
 //@   requires[env-upstream-in-context] true
 //@   ensures[no-reselect] gSelected == old(gSelected) && gSelAllow == old(gSelAllow) && gSelEndpoint == old(gSelEndpoint)
 //@   ensures[dialed] gDialed
+
+// ---- router construction (C09) ---------------------------------------------------
+// Every route of the proxy port is registered behind the auth middleware built
+// from the configured verifier (router typestate of pkg/middleware/verif_contracts_router.go).
+
+//@ contract NewServer
+//@   serves C09
+//@   requires[fresh-step] gEngine == nil && !gOpenRoute && !gNoRoute && gAuthObj == nil
+//@   requires[env-logger] logger != nil
+//@   ensures[engine] gEngine != nil
+//@   ensures[routes-behind-auth] verifier != nil ==> !gOpenRoute
+//@   ensures[router-protected] verifier != nil ==> grpAuth[addr(gEngine.RouterGroup)]
+//@   ensures[configured-verifier] verifier != nil ==> gAuthObj != nil && gAuthObj.verifier == verifier
+//@   ensures[routes] gRoutes >= old(gRoutes) + 1 && gNoRoute
